@@ -975,5 +975,58 @@ pub fn run(ctx: &mut Ctx, replay: Option<&str>) {
             attacks.clear();
         }
     }
+    for c in sweep_cases(&mut ctx.rng.fork(6_000_000), ctx.tier) {
+        ctx.count("stream.count_sweep");
+        attacks.push(c.attack());
+    }
     run_attacks(ctx, &attacks);
+}
+
+/// counts swept across the boundaries where bookkeeping changes representation (powers of two and their neighbours): how many
+/// distinct digests are met before a repeated one, and how many elements a referenced disclosure has
+pub fn sweep_cases(r: &mut Rng, tier: Tier) -> Vec<Case08> {
+    let far = now() + 100000;
+    let mut out = vec![];
+    let mut ns: Vec<usize> = (0..=70).collect();
+    ns.extend([127usize, 128, 129, 255, 256, 257]);
+    if tier == Tier::Thorough {
+        ns.extend([511usize, 512, 513, 1023, 1024, 1025]);
+    }
+    let disc = b64_json(&json!(["c2FsdHNhbHRzYWx0c2FsdA", "admin", true]));
+    let d = hash(&disc);
+    for (k, n) in ns.iter().enumerate() {
+        let decoys: Vec<Value> = (0..*n).map(|i| json!(hash(&format!("decoy-{}-{}", n, i)))).collect();
+        let mut first = decoys.clone();
+        first.push(json!(d));
+        // (a) the repeated digest is the (n+1)-th distinct one met: first inside member "a", again inside member "b"
+        let payload = json!({"iss": "https://issuer.example", "exp": far, "_sd_alg": "sha-256", "a": {"_sd": first}, "b": {"_sd": [d.clone()]}});
+        out.push(Case08 { class: format!("sweep.duplicate_after_n_distinct_digests: {}", n), devs: vec![], claims: Value::Null, payload, all: vec![disc.clone()], presented: vec![disc.clone()],
+                          key: *r.pick(&[KeyId::IssuerEc, KeyId::IssuerEd, KeyId::Hmac1]), fmt: if k % 2 == 0 { Fmt::Compact } else { Fmt::Json }, want: Want::Reject, own_view: None, affected: vec![], withheld: 0 });
+        // (b) the same with the second occurrence in an array placeholder
+        let mut first = decoys;
+        first.push(json!(d));
+        let payload = json!({"iss": "https://issuer.example", "exp": far, "_sd_alg": "sha-256", "a": {"_sd": first}, "list": ["x", {"...": d.clone()}]});
+        let disc2 = disc.clone();
+        out.push(Case08 { class: format!("sweep.duplicate_after_n_distinct_digests(placeholder): {}", n), devs: vec![], claims: Value::Null, payload, all: vec![disc2.clone()], presented: vec![disc2],
+                          key: KeyId::Hmac1, fmt: if k % 2 == 1 { Fmt::Compact } else { Fmt::Json }, want: Want::Reject, own_view: None, affected: vec![], withheld: 0 });
+    }
+    // arity of a referenced disclosure
+    let mut lens: Vec<usize> = (0..=8).collect();
+    lens.extend([255usize, 256, 257, 258, 259, 260, 511, 512, 513, 514, 515, 516]);
+    for (k, len) in lens.iter().enumerate() {
+        let mut arr = vec![json!("c2FsdHNhbHRzYWx0c2FsdA"), json!("admin"), json!(true)];
+        arr.truncate(*len);
+        while arr.len() < *len {
+            arr.push(json!(arr.len()));
+        }
+        let dsc = b64_json(&Value::Array(arr));
+        let dg = hash(&dsc);
+        let from_sd = json!({"iss": "https://issuer.example", "exp": far, "_sd_alg": "sha-256", "_sd": [dg.clone()]});
+        out.push(Case08 { class: format!("sweep.disclosure_length_from_sd: {}", len), devs: vec![], claims: Value::Null, payload: from_sd, all: vec![dsc.clone()], presented: vec![dsc.clone()],
+                          key: KeyId::Hmac1, fmt: if k % 2 == 0 { Fmt::Compact } else { Fmt::Json }, want: if *len == 3 { Want::Draft } else { Want::Reject }, own_view: None, affected: vec![], withheld: 0 });
+        let from_ph = json!({"iss": "https://issuer.example", "exp": far, "_sd_alg": "sha-256", "list": [{"...": dg}]});
+        out.push(Case08 { class: format!("sweep.disclosure_length_from_placeholder: {}", len), devs: vec![], claims: Value::Null, payload: from_ph, all: vec![dsc.clone()], presented: vec![dsc],
+                          key: KeyId::Hmac1, fmt: if k % 2 == 1 { Fmt::Compact } else { Fmt::Json }, want: if *len == 2 { Want::Draft } else { Want::Reject }, own_view: None, affected: vec![], withheld: 0 });
+    }
+    out
 }
